@@ -50,7 +50,7 @@ var Payloads = []Payload{
 }
 
 // Placement names where a payload goes.
-var Placements = []string{"pkgdoc", "funcdoc", "structdoc", "constdoc", "bodycomment", "fieldcomment", "strlit", "rawstr", "logprintf", "logprintln", "fmtprintln", "panicmsg", "conststr", "multiline-doc", "strconcat", "strconcat-empty", "strconcat-three", "constconcat", "concat-named-const", "logconcat", "panicconcat"}
+var Placements = []string{"pkgdoc", "funcdoc", "structdoc", "constdoc", "bodycomment", "fieldcomment", "strlit", "rawstr", "logprintf", "logprintln", "fmtprintln", "panicmsg", "conststr", "multiline-doc", "strconcat", "strconcat-empty", "strconcat-three", "constconcat", "concat-named-const", "logconcat", "panicconcat", "linedirective-func", "linedirective-struct", "linedirective-const"}
 
 func goStringLit(s string) (string, bool) {
 	return fmt.Sprintf("%q", s), true
@@ -85,6 +85,7 @@ func HostilePackage(name string, pl string, p Payload) (*Package, bool) {
 	pkgdoc, funcdoc, structdoc, constdoc, bodyc, fieldc := "", "", "", "", "", ""
 	strE, logE, constE := `"plain"`, "", `"cv"`
 	ct, cok := commentText(p.Text)
+	lineDir := map[string]string{}
 	switch pl {
 	case "pkgdoc":
 		if !cok {
@@ -121,6 +122,13 @@ func HostilePackage(name string, pl string, p Payload) (*Package, bool) {
 			return nil, false
 		}
 		fieldc = " // field " + ct
+	case "linedirective-func", "linedirective-struct", "linedirective-const":
+		// the payload becomes the FILE NAME of the positions that follow (as in generated code: //line rules.y:12);
+		// it reaches the output wherever a position is printed (-source-comments)
+		if !cok || strings.ContainsAny(ct, ":") || strings.TrimSpace(ct) != ct || ct == "" {
+			return nil, false
+		}
+		lineDir[strings.TrimPrefix(pl, "linedirective-")] = "//line " + ct + ".y:12\n"
 	case "strlit":
 		strE, _ = p.lit(), true
 	case "rawstr":
@@ -166,11 +174,14 @@ func HostilePackage(name string, pl string, p Payload) (*Package, bool) {
 	}
 	b.WriteString(pkgdoc)
 	fmt.Fprintf(&b, "package %s\n\nimport (\n\t\"fmt\"\n\t\"log\"\n)\n\n", name)
+	b.WriteString(lineDir["const"])
 	fmt.Fprintf(&b, "const Greeting string = %s%s\n\n", constE, constdoc)
 	b.WriteString(structdoc)
+	b.WriteString(lineDir["struct"])
 	fmt.Fprintf(&b, "type T struct {\n\tf uint64%s\n\tg uint64\n}\n\n", fieldc)
 	b.WriteString("func before(a uint64) uint64 {\n\treturn a + 1\n}\n\n")
 	b.WriteString(funcdoc)
+	b.WriteString(lineDir["func"])
 	fmt.Fprintf(&b, "func target(a uint64) (string, uint64) {\n%s\ts := %s\n%s\tfmt.Println(\"x\")\n\tlog.Println(\"y\")\n\treturn s, uint64(len(s)) + before(a)\n}\n\n", bodyc, strE, logE)
 	b.WriteString("func after(t *T) uint64 {\n\treturn t.f + t.g + uint64(len(Greeting))\n}\n\n")
 	b.WriteString("func case_target() (string, uint64) {\n\treturn target(1)\n}\n\n")
